@@ -314,13 +314,13 @@ def gen_pit(rs, dim=None):
             'feats': feats, 'n_inputs': n_inputs}
 
 
-def gen_mps(rs):
+def gen_mps(rs, max_c=5):
     dim = 2 if rs.chance(0.75) else 1
     cin = rs.randint(1, 3)
     size = rs.choice([5, 6]) if dim == 2 else rs.choice([8, 10])
     b = _B(dim, cin, size)
     feats = {'has_residual': False, 'has_bn': False, 'reused': False}
-    c1 = rs.randint(2, 5)
+    c1 = rs.randint(2, max_c)
     bn = rs.chance(0.5)
     feats['has_bn'] |= bn
     _conv(b, rs, c1, rs.choice([1, 3]), bn=bn)
